@@ -603,6 +603,38 @@ func (e *Env) call(ex *ECall) Value {
 				t = app("sbase", v.Term)
 			}
 			return boolV(app("<", t, e.st.AllocTerm()))
+		case "eqexcept":
+			// eqexcept(p, q, f1, f2, ...): p and q point to structs of the same type whose fields are pairwise equal, except
+			// the named ones. The field list comes from the Go type, so a field added later is covered without an edit.
+			if len(ex.Args) < 2 {
+				e.errf("eqexcept(p, q, fields...)")
+			}
+			pv := e.eval(ex.Args[0])
+			pt, ok := types.Unalias(pv.Typ).Underlying().(*types.Pointer)
+			if !ok {
+				e.errf("eqexcept needs pointers to structs")
+			}
+			stt, ok := types.Unalias(pt.Elem()).Underlying().(*types.Struct)
+			if !ok {
+				e.errf("eqexcept needs pointers to structs")
+			}
+			skip := map[string]bool{}
+			for _, a := range ex.Args[2:] {
+				id, ok := a.(*EIdent)
+				if !ok {
+					e.errf("eqexcept: field names expected")
+				}
+				skip[id.Name] = true
+			}
+			var conj Expr = &EBool{V: true}
+			for i := 0; i < stt.NumFields(); i++ {
+				f := stt.Field(i).Name()
+				if skip[f] {
+					continue
+				}
+				conj = &EBinary{"&&", conj, &EBinary{"==", &ESel{X: ex.Args[0], Name: f}, &ESel{X: ex.Args[1], Name: f}}}
+			}
+			return e.eval(conj)
 		case "convert":
 			// convert(x, type(T)): Go's conversion T(x) with the engine's exact semantics (integers wrap modulo 2^N)
 			v := e.eval(ex.Args[0])
